@@ -881,10 +881,11 @@ Proof.
     + destruct (Hex st c Hx Hw Eq) as (st' & Hr & Hy). { intro; subst; apply D; auto. }
       exists [ExitDeliver], st'. auto.
     + exists [TimerFire; ExitDeliver].
-      assert (Hs : step st TimerFire = Some (mkS (admin_only st) (total st) TSent (Some ByTimer) (wedged st) (exited st) (queue st)
-                              (clients st) (tzero st) (leaked st) (zero_sends st) (log st))).
+      set (s1 := mkS (admin_only st) (total st) TSent (Some ByTimer) (wedged st) (exited st) (queue st)
+                     (clients st) (tzero st) (leaked st) (zero_sends st) (log st)).
+      assert (Hs : step st TimerFire = Some s1).
       { unfold step. rewrite Hx, Et, Eq. reflexivity. }
-      destruct (Hex _ ByTimer Hx Hw eq_refl) as (st' & Hr & Hy); try discriminate.
+      destruct (Hex s1 ByTimer) as (st' & Hr & Hy); auto; try discriminate.
       exists st'. split; auto. split; auto. simpl. rewrite Hs. exact Hr.
   - assert (Eq : exit_q st = Some ByTimer) by (apply B; auto).
     destruct (Hex st ByTimer Hx Hw Eq) as (st' & Hr & Hy); try discriminate. exists [ExitDeliver], st'. auto.
